@@ -3,11 +3,10 @@ CONSTANTS
   N = 2
   MaxChoices = {2}
   IdSet = {"a", "b"}
-  CfgChoices <- WillChoices
-  Dev <- NoDev
-  EnvOn <- EnvWill
+  CfgChoices <- LimitChoices
+  Dev <- Dev_WgAddInHandler
+  EnvOn <- EnvClose
   MaxHist = 60
 VIEW view
-INVARIANTS P35 P36 P36b P14 P14b P15 P15b P13 P16 P16c PCnt
 PROPERTY WgContract
 CHECK_DEADLOCK FALSE
